@@ -6,7 +6,8 @@ Tie: (i) lean/Generated/Locks.lean regenerated from the source by harness/gen_lo
 the lock map the model assumes are `decide`d against it; (ii) schedule-level correspondence: 2-4 REAL threads run
 1-3 router operations each under the deterministic scheduler harness/dsched.py (pre-emption at every relevant
 bytecode of the functions that touch shared state, at every line of the rest of router.py / location_table.py,
-at every lock operation; timers are scheduler-driven threads); every observed outcome must be one the Lean block
+at every lock operation; timers are scheduler-driven threads; per scenario first the section-level schedules - threads
+switched only at lock operations -, fewest pre-emptions first, then bytecode-level ones); every observed outcome must be one the Lean block
 model can produce under SOME schedule of its blocks (driver `ConcRouter explore …`).
 Oracle: `judge()` transcribes the property text on the recorded events, independently of the model.
 """
@@ -38,7 +39,8 @@ TRUSTED = [
     "equivalents (harness/dsched.py) with the same blocking/cancel semantics",
     "block model: a `with lock:` section is one atomic block - for the accesses to lock-guarded attributes this is DERIVED "
     "(Props.C15.sections_atomic: mechanised reduction theorem instantiated with access-level programs generated from "
-    "Generated/Locks.lean); assumed for the rest (ego PV single-store section with unlocked readers, fields of LocTE objects "
+    "Generated/Locks.lean); assumed for the rest (ego PV section with unlocked readers - that it is ONE store per refresh is a "
+    "regenerated fact, Props.C15.source_single_publication -, fields of LocTE objects "
     "reached through a local variable, RLock re-entry) and validated by the bytecode-level exploration; the link between "
     "the hand-written block functions of RouterConc and the access lists is by construction, not a theorem",
     "harness/gen_locks.py (ast pass producing Generated/Locks.lean), harness/dsched.py",
@@ -61,12 +63,59 @@ FILES = [router_mod.__file__, loct_mod.__file__]
 
 
 def tpv(v):
-    return {"lat": 41.5 + v * 0.001, "lon": 2.1 + v * 0.001, "speed": float(v), "track": float(v),
-            "time": "2023-11-14T22:13:20Z"}
+    """a complete gpsd TPV report (every field gpsd documents for a 3D fix - the router may use any of them): position,
+    speed, heading AND time differ from fix to fix, and the error estimates alternate between a good and a poor fix
+    (horizontal error 5 m / 75 m, i.e. on both sides of itsGnPaiInterval / 2 = 40 m), so that two consecutive fixes
+    differ in every field a position vector can derive from them"""
+    good = v % 2 == 1
+    return {"class": "TPV", "device": "/dev/ttyACM0", "mode": 3, "status": 2 if good else 1,
+            "lat": 41.5 + v * 0.001, "lon": 2.1 + v * 0.001, "alt": 100.0 + v, "altHAE": 149.0 + v, "altMSL": 100.0 + v,
+            "speed": float(v), "track": float(v), "magtrack": float(v) + 1.5, "climb": 0.1 * v,
+            "time": "2023-11-14T22:13:%02dZ" % (20 + v % 40), "leapseconds": 18,
+            "ept": 0.005, "epx": 3.0 if good else 50.0, "epy": 4.0 if good else 56.0, "epv": 8.0 if good else 90.0,
+            "eph": 5.0 if good else 75.0, "eps": 0.5 if good else 12.0, "epd": 1.0 if good else 20.0,
+            "epc": 1.0 if good else 15.0, "sep": 9.0 if good else 120.0}
 
 
 def pv_fields(v):
     return (int((41.5 + v * 0.001) * 10**7), int((2.1 + v * 0.001) * 10**7), int(float(v) * 100), int(float(v) * 10))
+
+
+def initial_ego_pv(addr):
+    lat, lon, s_, h_ = pv_fields(0)
+    return LongPositionVector(gn_addr=addr, tst=TST.set_in_normal_timestamp_milliseconds(T0), latitude=lat, longitude=lon,
+                              pai=True, s=s_, h=h_)
+
+
+def legit_ego_pvs(sc):
+    """encodings of every position vector the ego station can have HAD at some instant if each refresh is atomic: the
+    initial one and whatever a refresh of the scenario publishes when it is applied - alone, sequentially, on an unshared
+    router - to a vector the station can have had (closure; a refresh inherits fields it does not overwrite from its
+    predecessor, so the predecessor matters).  A vector that exists only BETWEEN two stores of one refresh is not in it."""
+    vs = tuple(sorted({op[1] for th in all_threads(sc) for op in th if op[0] == "ego"}))
+    if vs in _legit_cache:          # depends on the refresh values (and the code under test) only
+        return _legit_cache[vs]
+    h, _, _ = rs.make_router(1)
+    init = initial_ego_pv(h.mib.itsGnLocalGnAddr)
+    have = {init.encode(): init}
+    for _ in range(len(vs) + 1):
+        new = {}
+        for p in list(have.values()):
+            for v in vs:
+                h.ego_position_vector = p
+                with rs.quiet():
+                    h.refresh_ego_position_vector(tpv(v))
+                q = h.ego_position_vector
+                if q.encode() not in have:
+                    new[q.encode()] = q
+        if not new:
+            break
+        have.update(new)
+    _legit_cache[vs] = set(have)
+    return _legit_cache[vs]
+
+
+_legit_cache = {}
 
 
 _opcode_codes = None
@@ -210,16 +259,14 @@ class Run:
                 frames.gbc_frame(40)
             for d in scenario_dests(sc):
                 frames.reply_frames(d, 3)
+            self.legit_pvs = legit_ego_pvs(sc)
             with dsched.patched([router_mod, loct_mod]):
                 kw = dict(itsGnLocationServiceMaxRetrans=mr)
                 if sc.get("cbf", True):
                     kw["itsGnAreaForwardingAlgorithm"] = AreaForwardingAlgorithm.CBF
                 r, ll, inds = rs.make_router(1, **kw)
                 self.r, self.ll = r, ll
-                now = TST.set_in_normal_timestamp_milliseconds(T0)
-                lat, lon, s_, h_ = pv_fields(0)
-                r.ego_position_vector = LongPositionVector(gn_addr=r.mib.itsGnLocalGnAddr, tst=now, latitude=lat,
-                                                           longitude=lon, pai=True, s=s_, h=h_)
+                r.ego_position_vector = initial_ego_pv(r.mib.itsGnLocalGnAddr)
                 if sc.get("warm"):              # the source of the GBC frames is already known (fresh PV, own DPL)
                     with rs.quiet():
                         r.gn_data_indicate(frames.gbc_frame(40))
@@ -474,6 +521,15 @@ class Run:
                 else:
                     if pv is None or pv not in ego_seen:
                         bad.append(f"packet kind {k} ref {ref} carries a position vector that was never the ego position")
+                    else:
+                        # ... in ALL its fields (timestamp, accuracy indicator included): the whole source position vector
+                        # must be one a complete refresh published, not a mixture of two of them
+                        raw = bytes(e[1][12:36] if k == 0 else e[1][16:40])
+                        if raw not in self.legit_pvs:
+                            got = LongPositionVector.decode(raw)
+                            bad.append(f"packet kind {k} ref {ref} carries a position vector that was never the ego position: "
+                                       f"tst={got.tst.encode()} lat={got.latitude} lon={got.longitude} pai={int(bool(got.pai))} "
+                                       f"s={got.s} h={got.h} is not the vector published by any complete refresh (torn update)")
                 if k == 2:
                     sent_req[ref] = sent_req.get(ref, 0) + 1
                     if sent_req[ref] > 1:
@@ -650,7 +706,7 @@ def scenarios(ctx):
         {"name": "gbc2", "threads": [[["gbc", 1]], [["gbc", 2]]]},
         {"name": "gbc3-wrap", "threads": [[["gbc", 1]], [["gbc", 2]], [["gbc", 3]]], "sn0": 65533, "frac": 0.4},
         {"name": "ego-shb", "threads": [[["ego", 5]], [["shb", 1]], [["ego", 6]]]},
-        {"name": "ego-gbc", "threads": [[["ego", 5], ["gbc", 2]], [["gbc", 1]]]},
+        {"name": "ego-gbc", "threads": [[["ego", 6], ["gbc", 2]], [["gbc", 1]]]},
         {"name": "cbf-cancel", "threads": [[["cbfA", 1, 7]], [["cbfA", 2, 7]]]},
         {"name": "cbf-2keys", "threads": [[["cbfA", 1, 7]], [["cbfA", 2, 8], ["ego", 4]]]},
         {"name": "gbc-rx", "threads": [[["gbcRx", 1, 7]], [["gbcRx", 2, 7]]], "warm": True},
@@ -670,6 +726,16 @@ def scenarios(ctx):
         # threads run): it must be sent, or queued behind a lookup that is really in progress
         {"name": "ls-reply-race", "pre": [["guc", 1, 1, 9]], "threads": [[["lsR", 2, 9]], [["guc", 3, 2, 9]]], "timer_depth": 0,
          "frac": 0.7},
+        # an origination scans the neighbour table (every SHB / GBC / GUC origination and every forwarder calls get_neighbours)
+        # while a GeoUnicast to a destination without LocTE lets the location service insert its placeholder into the table
+        # (the window is between two bytecodes of the scan, not at a section boundary: bytecode level, fewest pre-emptions
+        # first, every schedule with one pre-emption)
+        {"name": "orig-vs-ls", "threads": [[["shb", 1]], [["guc", 2, 2, 9]]], "warm": True, "timer_depth": 0, "order": "bfs",
+         "cap": 240, "ccap": 10, "pct": 8},
+        # a lookup being registered || (a frame of a third station, then a second request to the same destination): the
+        # reception's refresh_table can run between any two table accesses of the registration; section level exhausted
+        {"name": "ls-rx-2req", "threads": [[["guc", 1, 1, 9]], [["shbRx", 2, 60], ["guc", 3, 2, 9]]], "timer_depth": 0,
+         "ccap": 60, "frac": 0.5, "oracle_only_if_purging": True},
     ]
     if ctx.thorough:
         out += [
@@ -703,8 +769,16 @@ def scenarios(ctx):
     return out
 
 
-def explore(ctx, sc, frames, bound, cap, n_pct, observed, model=True):
-    """systematic enumeration up to `bound` pre-emptions (capped), then PCT; judges every run"""
+CCAP = 30      # section-level schedules per scenario (quick); a scenario may ask for more ("ccap": enough to exhaust one pre-emption)
+
+
+def section_cap(ctx, sc, factor=1):
+    return factor * (ctx.scale(sc.get("ccap", CCAP), 10 * sc.get("ccap", CCAP)))
+
+
+def explore(ctx, sc, frames, bound, cap, n_pct, observed, model=True, ccap=CCAP, stop_early=False):
+    """systematic enumeration up to `bound` pre-emptions (section level: `ccap` runs, then bytecode level: `cap` runs), then PCT;
+    judges every run"""
     state = {"est": 200, "found": 0}
 
     def handle(run):
@@ -736,7 +810,19 @@ def explore(ctx, sc, frames, bound, cap, n_pct, observed, model=True):
         state["est"] = max(state["est"], run.s.nsteps)
         return run.steps
 
-    runs, exhausted = dsched.enumerate_schedules(once, bound, cap, ctx.rng)
+    # (1) section level, fewest pre-emptions first: threads are switched only where they take / release a lock, start or end
+    # (the granularity of the block model) - every schedule with one such pre-emption, then two, as far as the cap allows
+    cruns, cex = dsched.enumerate_schedules(once, bound, ccap, ctx.rng, kinds=dsched.COARSE_KINDS, order="bfs")
+    ctx.cover("section_level_runs", cruns)
+    if cex:
+        ctx.cover("section_level_exhausted_bound_%d" % bound)
+    if state["found"] and stop_early:
+        return state["found"]
+    # (2) bytecode level: pre-emption before every relevant instruction, sampled (the section-level schedules are among these:
+    # one budget; a scenario that fixes its own caps keeps both)
+    if "cap" not in sc:
+        cap = max(cap - cruns, cap // 2)
+    runs, exhausted = dsched.enumerate_schedules(once, bound, cap, ctx.rng, order=sc.get("order", "any"))
     ctx.cover("systematic_runs", runs)
     if exhausted:
         ctx.cover("systematic_exhausted_bound_%d" % bound)
@@ -795,7 +881,9 @@ def run(ctx):
             oracle_only = True          # too many interleavings for the exhaustive model explorer
             ctx.cover("random_scenario_oracle_only")
         fr_ = sc.get("frac", 1.0) if not ctx.thorough else 1.0
-        explore(ctx, sc, frames, bound, max(int(cap * fr_), 20), max(int(n_pct * fr_), 8), observed, model=not oracle_only)
+        cap_ = ctx.scale(sc["cap"], 10 * sc["cap"]) if "cap" in sc else max(int(cap * fr_), 20)
+        pct_ = ctx.scale(sc["pct"], 10 * sc["pct"]) if "pct" in sc else max(int(n_pct * fr_), 8)
+        explore(ctx, sc, frames, bound, cap_, pct_, observed, model=not oracle_only, ccap=section_cap(ctx, sc))
         if oracle_only:
             continue
         batches.append((sc, observed))
@@ -808,7 +896,8 @@ def search(ctx):
     frames = Frames()
     VARIANT.update(detect_variants(frames))
     for sc in scenarios(ctx):
-        explore(ctx, sc, frames, ctx.scale(2, 3), ctx.scale(450, 4500), ctx.scale(90, 1200), {}, model=False)
+        explore(ctx, sc, frames, ctx.scale(2, 3), ctx.scale(450, 4500), ctx.scale(90, 1200), {}, model=False,
+                ccap=section_cap(ctx, sc, 3), stop_early=True)
         if ctx.violations:
             return
 
